@@ -387,4 +387,5 @@ Definition events_shape_ok : bool :=
   has_arm ArmCmd RECEIVE_TIMEOUT_ARMS && has_arm ArmAlarm RECEIVE_TIMEOUT_ARMS && has_arm ArmDefault RECEIVE_TIMEOUT_ARMS &&
   negb (has_arm ArmOther RECEIVE_TIMEOUT_ARMS) &&
   ALARM_IS_FIRST_TIMER_KEY && TRY_RECEIVE_ORDER_PRIO_TIMER_PLAIN &&
+  ENQUE_TIMERS_DRAINS_WHOLE_CHANNEL && RECEIVE_TIMEOUT_REMAINING_FROM_START &&
   TIMER_ID_IS_DEADLINE_THEN_SEQ_ORDERED && TIMERS_IS_BTREEMAP_BY_TIMER_ID.
